@@ -34,6 +34,10 @@ Definition p_op : parser (N * ev) :=
   | 12 => let* c := pN in pret (dt, EShutSub c)
   | 13 => let* p := pN in pret (dt, EOpenFull p)
   | 14 => let* p := pN in let* fs := pBool in let* fp := pBool in pret (dt, EForce p fs fp)
+  (* dial(p) / dial_address / add_known_address (k = 0 / 1 / 2): TransportService only forwards them
+     to its TransportManagerHandle (the manager's and the address book's models are C05 / C10); for
+     the service they are a plain poll — which is what the differential run checks *)
+  | 15 => let* p := pN in let* k := pN in if (p <? 1000000) && (k <? 3) then pret (dt, ENone) else pfail
   | _ => pfail
   end.
 
